@@ -22,6 +22,14 @@ def _sig(kind, params):
     return "C11:%s:%s" % (kind, digest(params))
 
 
+def scribble(value):
+    """Overwrite, in place, the array of an evaluation the caller owns (what `result.array *= 2`
+    or numpy's out= arguments do).  The library's own state must not be reachable through it."""
+    a = getattr(value, "array", None)
+    if isinstance(a, np.ndarray) and a.flags.writeable and a.size:
+        a[...] = 7 - 3j if np.iscomplexobj(a) else 7
+
+
 def check_gate(params):
     k = build.kit("circuit")
     g = k.box(("e", params["expr"]))
@@ -50,6 +58,14 @@ def check_gate(params):
             % (np.round(got_d.T, 3), np.round(got.conj(), 3)))
     if len(gd.dom) != len(g.cod) or len(gd.cod) != len(g.dom):
         bad("dagger-types", "dagger : %s -> %s" % (gd.dom, gd.cod))
+    # the evaluation belongs to the caller: overwriting it must not change what the gate is
+    r1, r2 = g.eval(), gd.eval()
+    scribble(r1)
+    scribble(r2)
+    again, again_d = qref.as_matrix(k.box(("e", params["expr"])).eval(), n_in), qref.as_matrix(g.dagger().eval(), len(gd.dom))
+    if not qref.close(again, got) or not qref.close(again_d, got_d):
+        bad("result-aliased", "after the array returned by eval() was overwritten in place, the gate evaluates "
+            "differently: the result shares memory with the gate")
     return out
 
 
@@ -97,6 +113,12 @@ def check_circuit(params):
         return out
     if not qref.close(got_d, got.conj().T):
         bad("dagger", "dagger().eval() is not the conjugate transpose of eval()")
+    r1 = d.eval()
+    scribble(r1)
+    again = qref.as_matrix(build.build(recipe).eval(), n_in)
+    if not qref.close(again, got):
+        bad("result-aliased", "after the array returned by eval() was overwritten in place, the same circuit "
+            "evaluates differently: the result shares memory with a gate")
     return out
 
 
